@@ -98,7 +98,7 @@ PrintableD(v) ==
     [] v.t = "fsym" -> v.v \in {"nan", "nzero"}      \* text of +-Inf: no claim
     [] v.t = "bigint" -> TRUE
     [] v.t = "str" -> "v" \in DOMAIN v              \* not the symbolic ISO time text
-    [] v.t = "float" -> v.sh <= 20 /\ Abs(v.num) < 100000000
+    [] v.t = "float" -> v.sh = 0         \* how a fraction is spelled is C01's subject, not claimed here
     [] v.t = "list" -> \A i \in 1..Len(v.v) : PrintableD(v.v[i])
     [] v.t = "map" -> KeysOK(v.v) /\ \A k \in DOMAIN v.v : PrintableD(v.v[k])
     [] OTHER -> TRUE
